@@ -228,6 +228,27 @@ def rule_redeclared_running_step(ctx):
     rs = ctx.prog.func("executor.Executor._restart_if_declared_again")
     rsrc = re.sub(r"\s+", " ", ast.unparse(rs.node))
     ctx.check("run.launched_decl == self._declaration(run.step)" in rsrc or "run.launched_decl != self._declaration(run.step)" in rsrc, rs.fq, "the recorded declaration is compared with the current one", "comparison changed", "compared")
+    # the event, not only the value: A -> B -> A reads like no change, but every re-creation drops what the command amended
+    ev = any(isinstance(c.func, ast.Attribute) and c.func.attr == "add" and ast.unparse(c.func.value).endswith("declared_again") for c in calls_in(ir.node))
+    parents_ir = {}
+    for n_ in ast.walk(ir.node):
+        for c_ in ast.iter_child_nodes(n_):
+            parents_ir[c_] = n_
+    guarded = False
+    for c in calls_in(ir.node):
+        if isinstance(c.func, ast.Attribute) and c.func.attr == "add" and ast.unparse(c.func.value).endswith("declared_again"):
+            node = c
+            while node in parents_ir:
+                node = parents_ir[node]
+                if isinstance(node, ast.If):
+                    guarded = True
+    ctx.check(ev and guarded, ir.fq, "re-creating the row of a running step is recorded as an event", "only the value of the declaration is compared later: a step declared A, then B, then A again while it runs is taken for unchanged although each re-creation cut the inputs its command had amended", "graph.declared_again.add(self.i) when the old row was RUNNING")
+    ctx.check(re.search(r"run\.step\.i in self\.workflow\.declared_again", rsrc) is not None and "declared_again.discard(run.step.i)" in rsrc, rs.fq, "the executor consults the event and clears it when the command has ended", "the event is not consulted (or never cleared: every later run of the step would be discarded)", "in declared_again ... discard")
+    # what the replaced command was declared to write is recorded before the step is made pending (C07: it can be removed later)
+    seq = [callee_name(c) for c in calls_in(rs.node)]
+    upd = [c for c in calls_in(rs.node) if callee_name(c) == "update_file_hashes"]
+    ok_out = bool(upd) and any(k.arg == "cause" and "FAILED" in ast.unparse(k.value) for k in upd[0].keywords) and "compute_out_hashes" in rsrc and re.search(r"run\.launched_decl\[2\]", rsrc) is not None and seq.index("update_file_hashes") < seq.index("set_state")
+    ctx.check(ok_out, rs.fq, "the outputs the command was launched with are hashed and recorded before the restart", "the early return skips the output hashes: a file written by the replaced command under a path the new declaration no longer has keeps state PLANNED without hash, is forgotten at cleanup and stays on disk", "compute_out_hashes(launched outputs) -> update_file_hashes(cause=FAILED)")
     names = [callee_name(c) for c in calls_in(rs.node)]
     ctx.check("delete_hash" in names and any(callee_name(c) == "set_state" and c.args and ast.unparse(c.args[0]) == "StepState.PENDING" for c in calls_in(rs.node)) and "mark_completed" not in names, rs.fq, "a replaced declaration ends the run without a verdict: hash deleted, step pending", "the run is completed (or keeps its hash) although the declaration it ran for is gone", "delete_hash + set_state(PENDING)")
     dec = ctx.prog.func("executor.Executor._declaration")
@@ -285,7 +306,7 @@ def rule_pool_initialised(ctx):
 
 
 RULES = [
-    Rule("R-C12-10", "a step declared again while running keeps its row and is run again afterwards", rule_redeclared_running_step, min_instances=7),
+    Rule("R-C12-10", "a step declared again while running keeps its row and is run again afterwards", rule_redeclared_running_step, min_instances=10),
     Rule("R-C12-9", "the resource pool is initialised from the command line", rule_pool_initialised, min_instances=1),
     Rule("R-C12-8", "steps (re)attached inside a hold block are re-examined (hold clause relies on the _safe recomputation)", C10.rule_step_overrides, min_instances=8),
     Rule("R-C12-7", "resource claims are replaced on declaration", rule_claims_replaced, min_instances=7),
@@ -298,9 +319,12 @@ RULES = [
 ]
 
 MUTANTS = [
+    Mutant("redeclaration-compared-by-value-only", "step.py", in_function("Step.initialize_row", replace_once("        if still_running:\n            self.graph.declared_again.add(self.i)\n", "")), ("R-C12-10",)),
+    Mutant("replaced-command-outputs-forgotten", "executor.py", in_function("Executor._restart_if_declared_again", replace_once("                self.workflow.update_file_hashes(result.new_hashes, cause=HashUpdateCause.FAILED)\n", "                pass\n")), ("R-C12-10",)),
+    Mutant("declared-again-never-cleared", "executor.py", in_function("Executor._restart_if_declared_again", replace_once("            self.workflow.declared_again.discard(run.step.i)\n", "")), ("R-C12-10",)),
     Mutant("redeclared-running-row-reset", "step.py", in_function("Step.initialize_row", replace_once('"state": (StepState.RUNNING if still_running else StepState.PENDING).value,', '"state": StepState.PENDING.value,')), ("R-C12-10",)),
     Mutant("redeclared-running-loses-holds", "step.py", in_function("Step.initialize_row", replace_once('"holding": old_row[1] if still_running else 0,', '"holding": 0,')), ("R-C12-10",)),
-    Mutant("replaced-declaration-completes", "executor.py", in_function("Executor._restart_if_declared_again", replace_once("            if run.launched_decl == self._declaration(run.step):\n                return False\n", "            return False\n")), ("R-C12-10",)),
+    Mutant("replaced-declaration-completes", "executor.py", in_function("Executor._restart_if_declared_again", replace_once("            if not declared_again and run.launched_decl == self._declaration(run.step):\n                return False\n", "            return False\n")), ("R-C12-10",)),
     Mutant("pool-never-filled", "scheduler.py", in_function("Scheduler.initialize", lambda t: __import__("re").sub(r"\n( +)self\.db\.executemany\(\s*INSERT_AVAILABLE_RESOURCE,[^\n]*(?:\n[^\n]*)*?\n\1\)\n|\n( +)self\.db\.executemany\(INSERT_AVAILABLE_RESOURCE,[^\n]*\)\n", lambda m: "\n" + (m.group(1) or m.group(2)) + "pass\n", t, count=1) if "INSERT_AVAILABLE_RESOURCE" in t else None), ("R-C12-9",)),
     Mutant("declared-none-keeps-old-claims", "workflow.py", in_function("Workflow.define_step", replace_once("        step.set_resources(resources)\n", "        if resources:\n            step.set_resources(resources)\n")), ("R-C12-7",)),
     Mutant("claims-merged-not-replaced", "step.py", in_function("Step.set_resources", lambda t: t.replace('"DELETE FROM step_resource WHERE node = ?", (self.i,)', '"DELETE FROM step_resource WHERE node = ? AND name NOT IN (SELECT value FROM json_each(?))", (self.i, "[]")', 1).replace('"INSERT INTO step_resource VALUES (?, ?, ?)"', '"INSERT INTO step_resource VALUES (?, ?, ?) ON CONFLICT DO NOTHING"', 1) if '"DELETE FROM step_resource WHERE node = ?", (self.i,)' in t else None), ("R-C12-7",)),
